@@ -71,6 +71,10 @@ def run(an: Analysis, rep):
     from .common import rebuild_rule
     rep.run(rebuild_rule, an, rep, "R07.8", ["from_json"], "a data class built key by key from a JSON object reads every field of the class (an omitted one silently takes its default)")
     rep.run(c08.r083, an, SharedRules(rep, "R07.S", "from_json_data stores tuples where the data classes declare tuples (shared with C08's R08.3): a list left in place makes the result unequal to x and unhashable"))
+    from . import c04 as _c04j
+    rep.run(_c04j.r04f, an, SharedRules(rep, "R07.D", "what from_code stores in each field has the type the published schema gives that field (C04's R04.W fold over witness code objects: a field declared "
+                                                   "bool holds a bool, the docstring a str or None, ...): to_json_data writes the values as they are, so a flag kept as `word & BIT` makes the document of "
+                                                   "decoded data invalid against the schema"))
     rep.stats.update(an.stats([an.interp("to_json")[0], an.interp("from_json")[0]]))
 
 
